@@ -45,9 +45,13 @@ CLAIMED.update({
              "outputs and never faults (induction over the operation list). Model tied to the code by a differential correspondence run "
              "after EVERY operation (shape, colours, keys, values, traversal ids, parent pointers, live allocation "
              "count): BFS over all tree shapes reachable with a bounded key universe, exhaustive short sequences, "
-             "random histories under three comparators.",
+             "random histories under three comparators, values incl. empty ones and NULL data with a size, the string-level "
+             "entry points (putstr/putstrf with every formatted length 0..2100/get/getstr/remove by C string) and the "
+             "documented invalid-argument calls (EINVAL, nothing changes).",
         note="trusted: Lean kernel, hand transcription of qtreetbl.c (validated on explored histories), gcc/ASan, "
-             "malloc/memcmp as modelled; put over an existing key with an EMPTY value keeps the old value (modelled as is).",
+             "malloc/memcmp as modelled. The theorems hold for every `keeps the old value` predicate of put; the code is the "
+             "instance replaceAlways (history_refines_exact, get_after_put). One defect of the pinned tree repaired first "
+             "(a put of an EMPTY value over an existing key kept the old value).",
         technique="Lean 4 proof (Nipkow-style inorder refinement + LLRB invariant by induction on fuel) + differential correspondence",
         design="7/C01"),
     "C02": dict(
@@ -66,11 +70,18 @@ CLAIMED.update({
         text="Lean 4 theorems: the raw-buffer model of qstring.c (trim family, unquote, replace in all four modes with the "
              "maxstrlen bound, bounded copies, line reader, tokenizer, reverse, case conversion, dup_between) computes "
              "exactly the reference functions for all NUL-free strings and all sizes, with every write inside the "
-             "contract's buffer; the in-place replace fit condition is exact. Tied to the code by an exhaustive (strings "
+             "contract's buffer; the in-place replace fit condition is exact; qstr_comma_number for every int incl. INT_MIN "
+             "inside its 15-byte block (comma_number_eq/_fits), qstrtest, qstr_is_ip4addr = four parts of one to three "
+             "digits <= 255 (is_ip4addr_eq), qstr_is_email = the declarative isEmail (is_email_eq), qstrdupf / qstrcatf "
+             "over the DYNAMIC_VSPRINTF doubling loop (dupf_eq, catf_eq: old content kept, exactly |out|+1 bytes written), "
+             "qstrunique's shape. Tied to the code by an exhaustive (strings "
              "of length <= 5 over the significant alphabet, all buffer sizes 1..n+2, all short (source, token, word) "
              "triples) plus random differential correspondence under ASan with exactly sized / guarded buffers.",
         note="trusted: Lean kernel, hand transcription of qstring.c (validated on explored inputs), strstr/strncmp modelled "
-             "by their C-standard definitions, gcc/ASan; strings NUL-free, sizes < 2^64, empty search token excluded.",
+             "by their C-standard definitions (also snprintf/vsnprintf/atoi/strchr/strdup/strcat/<ctype.h>), gcc/ASan; strings "
+             "NUL-free, sizes < 2^64, empty search token excluded; qstr_conv_encoding (iconv) not modelled; leading zeros in "
+             "IPv4 parts and the e-mail grammar are modelled as the code has them (the documentation names no grammar). "
+             "Four defects of the pinned tree repaired first (comma_number(INT_MIN), three in qstr_is_ip4addr).",
         technique="Lean 4 proof (list induction, loop invariants on raw buffers with checked accesses) + differential correspondence",
         design="7/C19"),
 })
@@ -120,7 +131,8 @@ CLAIMED.update({
              "Ledger streams and ledger theorems cover the tree table, list/queue/stack/grow/vector (Props/C11Seq.lean) "
              "and hash table/list table (Props/C11Map.lean): the library's live-block count is compared with the model's "
              "ledger after every operation and must be 0 after release. Static hash table: guard zones and byte-exact "
-             "image comparison, see C07.",
+             "image comparison (C07), exactly sized heap regions under ASan, and the handle / copies of get/getstr/getnext / "
+             "putstrf buffers in the ledger (Props/C11Harr.lean: harr_history_ledger, harr_handle_ledger).",
         technique="Lean 4 proof of fault-freedom obligations + sanitizer build + allocation-ledger correspondence",
         design="7/C11"),
     "C12": dict(
@@ -154,8 +166,10 @@ CLAIMED.update({
              "histories and plans) and for hash table/list table (Props/C15Map.lean: put/putstrf/get/getnext/getmulti/"
              "load/save/ctor, fault_then_normal).",
         note="theorems are about the allocation-plan models (hand transcriptions of the allocation order, validated by the "
-             "fault enumeration: attempt counts compared on every call); the static hash table allocates only its handle "
-             "and returned copies (not modelled under faults); mutex-init failures other than allocation are not modelled. "
+             "fault enumeration: attempt counts compared on every call); static hash table: the handle, the copies of "
+             "get/getstr/getnext and the putstrf buffers under every allocation plan (Props/C15Harr.lean: "
+             "harr_call_fault_atomic, harr_fault_then_normal, harr_getnext_retry; fault enumeration at each allocation of "
+             "every allocating call); mutex-init failures other than allocation are not modelled. "
              "Twelve defects of the pinned tree repaired first.",
         technique="Lean 4 proof (failure atomicity via the generalised insertion invariant) + fault-enumeration correspondence",
         design="7/C15"),
@@ -172,16 +186,23 @@ CLAIMED.update({
              "option table, flags, default handler and every document of directives and arbitrarily nested sections in "
              "every layout: the callback stream - otype, section id, accumulated section bits, level, parent chain, "
              "normalised argv, close callbacks with the opening directive's data - and the count, or the line of the "
-             "first offence, equal the declarative reading of the documentation; accepted iff Conforms); constants "
+             "first offence, equal the declarative reading of the documentation; accepted iff Conforms); ac_malformed (a "
+             "section still open at end of input, or a closing tag that closes nothing followed by arbitrary text: rejected "
+             "with -1, the error names the line of the first offence, callbacks exactly those of the prefix); "
+             "ac_no_final_newline (same result, message included, with or without the final LF); ini_roundtrip incl. "
+             "literal `$` (DollarOk) and references nested one level; ac_long_line_chunks_partial (what fgets splits an "
+             "over-long line into); constants "
              "regenerated from the headers. Correspondence: "
              "grammar-generated conforming and offending documents x option tables (take counts, types, scopes, flags), "
              "nesting, all bool spellings, number forms; reference oracle computed from the grammar value.",
         note="ac_accept_iff / ac_callbacks are proved for ARBITRARILY NESTED, properly closed sections incl. refusing "
-             "callbacks (induction over the document tree); not covered by a theorem: a last line without newline, "
-             "over-long (chunked) lines, unclosed/mismatched sections (correspondence only); ini_roundtrip excludes "
-             "nested references and literal $ in values. trusted: Lean kernel, hand transcription "
-             "(validated on explored documents), translator/confconsts.py, gcc/ASan; C locale. Four defects of the pinned "
-             "tree repaired first.",
+             "callbacks (induction over the document tree); over-long lines: reading-level theorem only (each 4095-byte piece "
+             "is handled as a line of its own; the tail of an over-long comment is parsed as a directive - observation, not "
+             "repaired); ini_roundtrip excludes nesting deeper than one level, an unclosed `${` and substituted texts "
+             "containing `${`; a refusing DEFAULT handler is checked against the oracle only (model: non-refusing). "
+             "trusted: Lean kernel, hand transcription (validated on explored documents), translator/confconsts.py, "
+             "gcc/ASan; C locale. Five defects of the pinned tree repaired first (the last: the default handler's error "
+             "was ignored and leaked).",
         technique="Lean 4 proof (simulation of the raw tokenizer, classifier equalities, document induction) + K-gen constants + grammar-based differential correspondence",
         design="7/C20"),
 })
